@@ -197,6 +197,9 @@ func (ms *muxedSwarm[A, C, Pub]) Tell(ctx context.Context, dst A, data p2p.IOVec
 	if err := ms.checkClosed(); err != nil {
 		return err
 	}
+	if p2p.VecSize(data) > ms.MTU() {
+		return p2p.ErrMTUExceeded
+	}
 	return ms.m.tell(ctx, ms.cid, dst, data)
 }
 
@@ -207,6 +210,9 @@ func (ms *muxedSwarm[A, C, Pub]) Receive(ctx context.Context, th func(p2p.Messag
 func (ms *muxedSwarm[A, C, Pub]) Ask(ctx context.Context, resp []byte, dst A, data p2p.IOVec) (int, error) {
 	if err := ms.checkClosed(); err != nil {
 		return 0, err
+	}
+	if p2p.VecSize(data) > ms.MTU() {
+		return 0, p2p.ErrMTUExceeded
 	}
 	return ms.m.ask(ctx, ms.cid, resp, dst, data)
 }
